@@ -3,6 +3,7 @@
 #   The caught-by matrix: every given seeded change x all 20 quick checks, run in <slots> parallel
 #   sandboxes.  Each slot has its own scratch worktree of /repo (synced to /repo HEAD) and its own
 #   copy of /verif under /tmp, so nothing here touches /repo, /verif/evidence or /verif/out.
+#   SRC=<dir> takes the patches from <dir>/<id>/patch.diff instead of /verif/seeded (e.g. /verif/benign).
 #   Line format: <seeded id> <check> <exit code> <number of VIOLATION lines>
 OUT=$1; SLOTS=$2; shift 2
 HEAD=$(git -C /repo rev-parse HEAD)
@@ -19,7 +20,7 @@ slot() {
   while :; do
     s=$( flock $Q/lock sh -c "head -1 $Q/queue; sed -i 1d $Q/queue" )
     [ -z "$s" ] && break
-    git -C $R checkout -q -- . ; git -C $R apply /verif/seeded/$s/patch.diff || { echo "$s APPLY-FAILED" >> $OUT; continue; }
+    git -C $R checkout -q -- . ; git -C $R apply ${SRC:-/verif/seeded}/$s/patch.diff || { echo "$s APPLY-FAILED" >> $OUT; continue; }
     for c in C01 C02 C03 C04 C05 C06 C07 C08 C09 C10 C11 C12 C13 C14 C15 C16 C17 C18 C19 C20; do
       o=$(VERIF_REPO=$R $V/bin/check $c --tier quick --jobs ${JOBS:-4} 2>&1); rc=$?
       echo "$s $c $rc $(echo "$o" | grep -c '^VIOLATION')" >> $OUT
